@@ -910,10 +910,21 @@ func (fr *Frame) loopModifies(h *ssa.BasicBlock) []string {
 			case *ssa.MakeSlice:
 				set["$alloc"] = true
 				set[vc.arrComp(ins.Type().Underlying().(*types.Slice).Elem())] = true
-			case *ssa.MakeInterface, *ssa.MakeClosure, *ssa.MakeMap, *ssa.MakeChan:
+			case *ssa.MakeMap:
+				set["$alloc"] = true
+				set[vc.mapComp(ins.Type().Underlying().(*types.Map))] = true
+				set[vc.mapLenComp()] = true
+			case *ssa.MakeChan:
+				set["$alloc"] = true
+				set[vc.chposComp()] = true
+				set[vc.chsentComp()] = true
+				vc.comp("$chclosed", "(Array Int Bool)")
+				set["$chclosed"] = true
+			case *ssa.MakeInterface, *ssa.MakeClosure:
 				set["$alloc"] = true
 			case *ssa.MapUpdate:
 				set[vc.mapComp(ins.Map.Type().Underlying().(*types.Map))] = true
+				set[vc.mapLenComp()] = true
 			case *ssa.Send:
 				set[vc.chsentComp()] = true
 			case *ssa.UnOp:
